@@ -41,7 +41,9 @@ Definition parse_op (op : string) : list label :=
   else if String.eqb k "CLOSE" then [LMethod c 0%N MConnClose]
   else if String.eqb k "CLOSEOK" then [LMethod c 0%N MConnCloseOk]
   else if String.eqb k "ACCEPT" then [LAccept c]
-  else if String.eqb k "RESTART" then [LRestart]
+  (* a graceful stop writes out what the store still holds pending, then the broker starts again from the store
+     (LRestart on its own, with store operations pending, is a kill) *)
+  else if String.eqb k "RESTART" then [LPersistTick; LRestart]
   else if String.eqb k "BADM" then [LBadMethod c h]
   else if String.eqb k "HB" then [LHeartbeat c h]
   else if String.eqb k "IDLE" then (if pB (a 2%N) then [LSocketLoss c] else [])
